@@ -417,6 +417,25 @@ def handleNew (st : St) (args : List String) : St × String :=
     | _, _, _ => (st, bad "new args")
   | _ => (st, bad "new")
 
+/-- The DP over subsets of tracks (`AssignX.bestDP`) is exponential in the number of distinct tracks of the table. An entry whose
+weight is below the threshold is never part of an optimal assignment (leaving the detection unmatched is worth the threshold and
+frees the track), so the DP — optimum and number of optima — is run on the entries with `w ≥ thr` only; a query that keeps no entry
+contributes the threshold. `none` when even that table has more than 18 distinct tracks (the certificate alone then decides the
+optimum, and tie analysis is skipped: flag `tie-analysis-skipped`). On small instances the result is cross-checked against the
+exhaustive enumeration on every call. -/
+def prunedDP (aes : List AssignX.Entry) (thr : Int) : Option (Int × Nat) :=
+  let qs := AssignX.queries aes
+  let eff : List AssignX.Entry := qs.flatMap (fun q =>
+    (AssignX.tracks (aes.filter (fun e => e.q == q))).filterMap (fun t =>
+      let w := AssignX.weightOf aes q t
+      if w ≥ thr then some { q := q, t := t, w := w } else none))
+  if (AssignX.tracks eff).length > 18 then none else
+  let r := AssignX.bestDP eff thr
+  let kept := AssignX.queries eff
+  let dropped := (qs.filter (fun q => !kept.contains q)).length
+  some (r.1 + thr * dropped, r.2)
+
+
 def handlePredict (st : St) (args impl : List String) : St × String :=
   match args with
   | nsT :: rest =>
@@ -520,6 +539,7 @@ def handlePredict (st : St) (args impl : List String) : St × String :=
           flag (gsV.any (fun (_, ds, _, _, _, _) => ds.any (fun d => d.feat != 0 && !d.collectOk))) "feature-not-collectable" ++
           flag ((st.st.live.map (·.scene)).eraseDups.length ≥ 2) "multi-scene-store" ++
           flag (nVariants > 1) "appearance-weight-tie" ++
+          flag (gs.any (fun (_, _, es, _) => (prunedDP (es.map (fun x => { q := x.det + 1, t := x.tid, w := x.w })) st.cfg.thr).isNone)) "tie-analysis-skipped" ++
           flag (gs.any (fun (_, _, es, _) => !AssignX.small (es.map (fun x => { q := x.det + 1, t := x.tid, w := x.w })))) "large-assignment-certified"
         -- on small instances the dynamic programme (used for the number of optima) and the certified solver must
         -- agree with the exhaustive enumeration; on large ones the solver must produce a certificate the checker
@@ -527,11 +547,14 @@ def handlePredict (st : St) (args impl : List String) : St × String :=
         -- the infeasible enumeration, which is reported as a machinery error instead) and the DP must agree with it
         let dpOk := gs.all (fun (_, _, es, _) =>
           let aes : List AssignX.Entry := es.map (fun x => { q := x.det + 1, t := x.tid, w := x.w })
-          if AssignX.small aes then
-            ((AssignX.bestDP aes st.cfg.thr).1 == AssignX.best aes st.cfg.thr &&
-             (AssignX.bestDP aes st.cfg.thr).2 == (AssignX.optimal aes st.cfg.thr).length &&
-             AssignX.certified aes st.cfg.thr == some (AssignX.best aes st.cfg.thr))
-          else AssignX.certified aes st.cfg.thr == some (AssignX.bestDP aes st.cfg.thr).1)
+          match prunedDP aes st.cfg.thr with
+          | none => (AssignX.certified aes st.cfg.thr).isSome
+          | some (v, c) =>
+            if AssignX.small aes then
+              (v == AssignX.best aes st.cfg.thr &&
+               c == (AssignX.optimal aes st.cfg.thr).length &&
+               AssignX.certified aes st.cfg.thr == some (AssignX.best aes st.cfg.thr))
+            else AssignX.certified aes st.cfg.thr == some v)
         if !dpOk then (st, bad "assignment optimum: no accepted certificate on a large instance, or solver / DP / enumeration disagree") else
         match modelRes with
         | none =>
@@ -559,7 +582,9 @@ def handlePredict (st : St) (args impl : List String) : St × String :=
           let d := if trOk then d else d ++ s!" TRACE-INVALID {trWhy}"
           let ties := gs.filterMap (fun (sc, _, es, _) =>
             let aes : List AssignX.Entry := es.map (fun x => { q := x.det + 1, t := x.tid, w := x.w })
-            if AssignX.optCount aes st.cfg.thr > 1 then some sc else none) ++
+            match prunedDP aes st.cfg.thr with
+            | some (_, c) => if c > 1 then some sc else none
+            | none => some sc) ++
             gsV.filterMap (fun (sc, _, _, _, ves, _) => if st.visual && !visualUnique st.cfg ves then some sc else none)
           ({ st with st := st', nextTok := tok', issued := (st.issued ++ ids).eraseDups, tieScenes := (st.tieScenes ++ ties).eraseDups, featVecs := vecs },
            res (kRecs && kDump && vgK) (oLen && oEcho && oDistinct && oFresh && oEpoch && kDump && vgO) flags
